@@ -111,9 +111,27 @@ func observe(vs *redisemu.VerifStore) map[int]map[string]string {
 	return out
 }
 
+// goneBy: the observation ends with the key's deadline in Unix milliseconds (":<ms>", -1 without one); a key
+// whose deadline has passed (or is about to) may or may not be there any more
+func goneBy(v string, nowMs int64) bool {
+	i := strings.LastIndex(v, "|:")
+	if i < 0 {
+		return false
+	}
+	ms, err := strconv.ParseInt(strings.TrimSpace(v[i+2:]), 10, 64)
+	return err == nil && ms > 0 && ms <= nowMs+100
+}
+
+// diff: a is what is expected, b what was found. A key whose deadline has passed in the meantime does not count
+// (false alarm of a sweep: a key with a deadline a few seconds ahead was saved, the crash copy was loaded after
+// the deadline, and the loaded database — the new snapshot without that key — was taken for "neither").
 func diff(a, b map[string]string) string {
+	now := time.Now().UnixMilli()
 	for k, v := range a {
 		if w, ok := b[k]; !ok {
+			if goneBy(v, now) {
+				continue
+			}
 			return fmt.Sprintf("key %q (%s) is missing", k, v)
 		} else if w != v {
 			return fmt.Sprintf("key %q: %s vs %s", k, v, w)
@@ -121,6 +139,9 @@ func diff(a, b map[string]string) string {
 	}
 	for k, v := range b {
 		if _, ok := a[k]; !ok {
+			if goneBy(v, now) {
+				continue
+			}
 			return fmt.Sprintf("key %q (%s) is extra", k, v)
 		}
 	}
